@@ -554,6 +554,7 @@ def _module_passes(tree: ast.Module) -> None:
     import copy as _c
 
     consts: Dict[str, List[ast.AST]] = {}
+    rows: Dict[str, List[List[ast.AST]]] = {}
     ntuples: Dict[str, List[str]] = {}
     mod_funcs = {st.name for st in tree.body if isinstance(st, (ast.FunctionDef, ast.AsyncFunctionDef))}
     for st in tree.body:
@@ -566,6 +567,11 @@ def _module_passes(tree: ast.Module) -> None:
         if isinstance(tgt_, ast.Name) and isinstance(val_, (ast.Tuple, ast.List)) and val_.elts \
                 and all(isinstance(e, ast.Name) and e.id in mod_funcs for e in val_.elts):
             consts[tgt_.id] = list(val_.elts)
+        # a module-level table of rows (type, function-or-lambda, ...) driving an unpacking loop
+        if isinstance(tgt_, ast.Name) and isinstance(val_, (ast.Tuple, ast.List)) and val_.elts \
+                and all(isinstance(e, ast.Tuple) and e.elts and all(isinstance(x, (ast.Name, ast.Constant, ast.Lambda, ast.Attribute)) for x in e.elts)
+                        for e in val_.elts) and len({len(e.elts) for e in val_.elts}) == 1:
+            rows[tgt_.id] = [list(e.elts) for e in val_.elts]
         if isinstance(st, ast.ClassDef) and any(ast.unparse(b).split(".")[-1] == "NamedTuple" for b in st.bases):
             ntuples[st.name] = [b.target.id for b in st.body if isinstance(b, ast.AnnAssign) and isinstance(b.target, ast.Name)]
     rebound = {t.id for n in ast.walk(tree) if isinstance(n, (ast.Assign, ast.AugAssign, ast.AnnAssign)) and n not in tree.body
@@ -617,6 +623,22 @@ def _module_passes(tree: ast.Module) -> None:
     tree_new = _G().visit(tree)
     assert tree_new is tree
 
+    class _Beta(ast.NodeTransformer):
+        """(lambda a, b: E)(x, y)  is  E[a := x, b := y]  when the arguments are plain (a name, an attribute chain, a constant)."""
+        def visit_Call(self, node: ast.Call):
+            self.generic_visit(node)
+            lam = node.func
+            if isinstance(lam, ast.Lambda) and not node.keywords and not lam.args.vararg and not lam.args.kwarg and not lam.args.kwonlyargs \
+                    and not lam.args.defaults and len(lam.args.args) + len(lam.args.posonlyargs) == len(node.args) \
+                    and all(isinstance(a_, (ast.Name, ast.Attribute, ast.Constant)) for a_ in node.args):
+                bind = dict(zip([a_.arg for a_ in lam.args.posonlyargs + lam.args.args], node.args))
+
+                class _B(ast.NodeTransformer):
+                    def visit_Name(self, n):
+                        return _c.deepcopy(bind[n.id]) if n.id in bind and isinstance(n.ctx, ast.Load) else n
+                return ast.copy_location(_B().visit(_c.deepcopy(lam.body)), node)
+            return node
+
     def unroll(stmts: List[ast.stmt]) -> List[ast.stmt]:
         out: List[ast.stmt] = []
         for st in stmts:
@@ -627,6 +649,28 @@ def _module_passes(tree: ast.Module) -> None:
             if isinstance(st, ast.Try):
                 for h in st.handlers:
                     h.body = unroll(h.body)
+            if isinstance(st, ast.For) and not st.orelse and isinstance(st.target, ast.Tuple) and isinstance(st.iter, ast.Name) \
+                    and st.iter.id in rows and st.iter.id not in rebound and len(rows[st.iter.id]) <= 8 \
+                    and all(isinstance(t_, ast.Name) for t_ in st.target.elts) and len(st.target.elts) == len(rows[st.iter.id][0]) \
+                    and not any(isinstance(x, (ast.Break, ast.Continue)) for b in st.body for x in ast.walk(b)) \
+                    and not any(isinstance(x, ast.Name) and x.id in {t_.id for t_ in st.target.elts} and isinstance(x.ctx, ast.Store)
+                                for b in st.body for x in ast.walk(b)):
+                names_ = [t_.id for t_ in st.target.elts]
+
+                class _SR(ast.NodeTransformer):
+                    def __init__(self, row):
+                        self.row = dict(zip(names_, row))
+
+                    def visit_Name(self, n):
+                        return _c.deepcopy(self.row[n.id]) if n.id in self.row and isinstance(n.ctx, ast.Load) else n
+
+                for row in rows[st.iter.id]:
+                    for b in st.body:
+                        nb = _Beta().visit(_SR(row).visit(_c.deepcopy(b)))
+                        nb = _G().visit(nb)
+                        ast.copy_location(nb, st)
+                        out.append(nb)
+                continue
             elts = None
             if isinstance(st, ast.For) and not st.orelse and isinstance(st.target, ast.Name):
                 if isinstance(st.iter, (ast.Tuple, ast.List)) and st.iter.elts and all(isinstance(e, ast.Constant) for e in st.iter.elts):
@@ -707,11 +751,118 @@ def _module_passes(tree: ast.Module) -> None:
         partials(fn)
 
 
+def _dispatch_tables(fn) -> None:
+    """A local dispatch table  D = {K1: f1, K2: f2}  (bound once, values are names) used as
+
+        s = D.get(E, fdefault)          or   s = D[E]
+        s(args)
+
+    is read as the if-chain it abbreviates:  if E == K1: f1(args) elif E == K2: f2(args) else: fdefault(args)."""
+    import copy as _c
+
+    tables: Dict[str, ast.Dict] = {}
+    n_asg: Dict[str, int] = {}
+    for n in ast.walk(fn):
+        if isinstance(n, (ast.Assign, ast.AnnAssign)) and n.value is not None:
+            t = n.targets[0] if isinstance(n, ast.Assign) and len(n.targets) == 1 else (n.target if isinstance(n, ast.AnnAssign) else None)
+            if isinstance(t, ast.Name):
+                n_asg[t.id] = n_asg.get(t.id, 0) + 1
+                if isinstance(n.value, ast.Dict) and n.value.keys and all(k is not None and isinstance(k, (ast.Attribute, ast.Constant, ast.Name)) for k in n.value.keys) \
+                        and all(isinstance(v, ast.Name) for v in n.value.values):
+                    tables[t.id] = n.value
+    tables = {k: v for k, v in tables.items() if n_asg.get(k) == 1}
+    if not tables:
+        return
+
+    def lookup(e: ast.AST):
+        """(table, key expression, default name or None) for D.get(E, d) / D[E]."""
+        if isinstance(e, ast.Call) and isinstance(e.func, ast.Attribute) and e.func.attr == "get" and isinstance(e.func.value, ast.Name) \
+                and e.func.value.id in tables and len(e.args) == 2 and isinstance(e.args[1], ast.Name) and not e.keywords:
+            return tables[e.func.value.id], e.args[0], e.args[1]
+        if isinstance(e, ast.Subscript) and isinstance(e.value, ast.Name) and e.value.id in tables:
+            return tables[e.value.id], e.slice, None
+        return None
+
+    def plain(e: ast.AST) -> bool:
+        return isinstance(e, (ast.Name, ast.Constant)) or (isinstance(e, ast.Attribute) and plain(e.value))
+
+    def chain(tbl: ast.Dict, key: ast.AST, dflt, call: ast.Call, wrap, at: ast.stmt) -> ast.stmt:
+        def mk(fname: ast.AST) -> ast.stmt:
+            c = ast.Call(func=_c.deepcopy(fname), args=[_c.deepcopy(a) for a in call.args], keywords=[_c.deepcopy(k) for k in call.keywords])
+            return ast.copy_location(wrap(c), at)
+        orelse: List[ast.stmt] = [mk(dflt)] if dflt is not None else \
+            [ast.copy_location(ast.Raise(exc=ast.Call(func=ast.Name(id="KeyError", ctx=ast.Load()), args=[_c.deepcopy(key)], keywords=[]), cause=None), at)]
+        for k, v in reversed(list(zip(tbl.keys, tbl.values))):
+            test = ast.Compare(left=_c.deepcopy(key), ops=[ast.Eq()], comparators=[_c.deepcopy(k)])
+            orelse = [ast.copy_location(ast.If(test=test, body=[mk(v)], orelse=orelse), at)]
+        return orelse[0]
+
+    def rewrite(stmts: List[ast.stmt]) -> List[ast.stmt]:
+        out: List[ast.stmt] = []
+        i = 0
+        while i < len(stmts):
+            st = stmts[i]
+            for fld in ("body", "orelse", "finalbody"):
+                v = getattr(st, fld, None)
+                if isinstance(v, list) and v and isinstance(v[0], ast.stmt) and not isinstance(st, (ast.FunctionDef, ast.AsyncFunctionDef, ast.ClassDef)):
+                    setattr(st, fld, rewrite(v))
+            if isinstance(st, ast.Try):
+                for h in st.handlers:
+                    h.body = rewrite(h.body)
+            done = False
+            # s = D.get(E, d) ; s(args)
+            if isinstance(st, ast.Assign) and len(st.targets) == 1 and isinstance(st.targets[0], ast.Name) and i + 1 < len(stmts):
+                lk = lookup(st.value)
+                nx = stmts[i + 1]
+                sname = st.targets[0].id
+                call = nx.value if isinstance(nx, ast.Expr) else None
+                aw = False
+                if isinstance(call, ast.Await):
+                    call, aw = call.value, True
+                uses = sum(1 for x in ast.walk(fn) if isinstance(x, ast.Name) and x.id == sname)
+                if lk is not None and plain(lk[1]) and isinstance(call, ast.Call) and isinstance(call.func, ast.Name) and call.func.id == sname and uses == 2:
+                    wrap = (lambda c: ast.Expr(value=ast.Await(value=c))) if aw else (lambda c: ast.Expr(value=c))
+                    out.append(chain(lk[0], lk[1], lk[2], call, wrap, nx))
+                    i += 2
+                    done = True
+            # D.get(E, d)(args)  /  D[E](args)
+            if not done and isinstance(st, ast.Expr) and isinstance(st.value, ast.Call):
+                lk = lookup(st.value.func)
+                if lk is not None and plain(lk[1]):
+                    out.append(chain(lk[0], lk[1], lk[2], st.value, lambda c: ast.Expr(value=c), st))
+                    i += 1
+                    done = True
+            if not done:
+                out.append(st)
+                i += 1
+        return out
+
+    fn.body = rewrite(fn.body)
+    # a table that is no longer read is dead: its binding goes
+    for name in list(tables):
+        if not any(isinstance(x, ast.Name) and x.id == name and isinstance(x.ctx, ast.Load) for x in ast.walk(fn)):
+            def prune(stmts: List[ast.stmt]) -> List[ast.stmt]:
+                keep = []
+                for st in stmts:
+                    t = st.targets[0] if isinstance(st, ast.Assign) and len(st.targets) == 1 else (st.target if isinstance(st, ast.AnnAssign) else None)
+                    if isinstance(t, ast.Name) and t.id == name and getattr(st, "value", None) is tables[name]:
+                        continue
+                    for fld in ("body", "orelse", "finalbody"):
+                        v = getattr(st, fld, None)
+                        if isinstance(v, list) and v and isinstance(v[0], ast.stmt) and not isinstance(st, (ast.FunctionDef, ast.AsyncFunctionDef, ast.ClassDef)):
+                            setattr(st, fld, prune(v) or [ast.copy_location(ast.Pass(), st)])
+                    keep.append(st)
+                return keep
+            fn.body = prune(fn.body)
+    ast.fix_missing_locations(fn)
+
+
 def canonical(tree: ast.Module) -> ast.Module:
     tree = _Canon().visit(tree)
     _module_passes(tree)
     tree = _Canon2().visit(tree)
     for fn in [n for n in ast.walk(tree) if isinstance(n, (ast.FunctionDef, ast.AsyncFunctionDef))]:
+        _dispatch_tables(fn)
         _aliases(fn)
         _explaining_variables(fn)
         _set_updates(fn)
